@@ -1025,7 +1025,8 @@ class AnyBetween(__Class):
             else:
                 message = f"Argument \"{c}\" is neither a string nor a token."
                 raise _ex.InvalidArgumentTypeException(message)
-        start, end = str(start), str(end)
+        # Tokens such as "Backslash" and "Dollar" are represented by an escaped character.
+        start, end = (s[1:] if len(s) > 1 else s for s in (str(start), str(end)))
         if ord(start) >= ord(end):
             raise _ex.InvalidRangeException(start, end)
         start = f"\\{start}" if start in __class__._to_escape else start
@@ -1072,7 +1073,8 @@ class AnyButBetween(__Class):
             else:
                 message = f"Argument \"{c}\" is neither a string nor a token."
                 raise _ex.InvalidArgumentTypeException(message)
-        start, end = str(start), str(end)
+        # Tokens such as "Backslash" and "Dollar" are represented by an escaped character.
+        start, end = (s[1:] if len(s) > 1 else s for s in (str(start), str(end)))
         if ord(start) >= ord(end):
             raise _ex.InvalidRangeException(start, end)
         start = f"\\{start}" if start in __class__._to_escape else start
